@@ -54,7 +54,8 @@ Snap(St) ==
         [age |-> IF St.lv[n] = None THEN -1 ELSE St.ts - St.lv[n],
          fwd |-> St.fwd[n],
          dirty |-> {d \in DOMAIN St.lv : <<n, d>> \in St.dirty},
-         back |-> St.back[n]]]
+         back |-> St.back[n],
+         tfc |-> St.tfc[n]]]
 
 Init ==
     /\ pi \in {i \in 1..Len(Family) : i % Shards = Shard}
@@ -128,6 +129,9 @@ Spec == Init /\ [][Next]_vars
 
 (* C06 on the model *)
 Correct == ~bad
+(* ... its termination part alone: the mechanism never deadlocks, never runs out of fuel (unbounded recursion)  *)
+(* and never unwinds a query that is not marked                                                                *)
+Terminates == S.err = ""
 
 (* hist / qres are bookkeeping for counterexamples and the generator        *)
 View == <<pi, [S EXCEPT !.log = <<>>], inputs, insess, batch, epoch, nsets, nq, bad, done>>
